@@ -109,6 +109,9 @@ pub struct Case {
     pub port: Option<u16>,
     pub peer: Peer,
     pub client_alpn: bool,
+    /// send a real request through `Client` (builder, pool, layers, HTTP/1.1 connection) instead of
+    /// writing marker bytes to the stream the transport returns
+    pub via_client: bool,
 }
 
 impl Case {
@@ -164,6 +167,28 @@ pub fn run_case(c: &Case, fx: &Fx) -> Seen {
     let stall = Gate::new();
     // ---- client: the real TlsTransport with a TLS configuration
     let cfg = if c.client_alpn { fx.client_alpn.clone() } else { fx.client_plain.clone() };
+    if c.via_client {
+        let seen_c = seen.clone();
+        let uri = c.uri();
+        let cfgc = (*cfg).clone();
+        let built = std::panic::catch_unwind(std::panic::AssertUnwindSafe(|| {
+            hyperdriver::Client::builder().with_auto_http().with_transport(OneShot(Arc::new(Mutex::new(Some(near))))).with_default_pool().without_timeout().with_tls(cfgc).build()
+        }));
+        match built {
+            Err(p) => seen.lock().unwrap().panics.push(crate::det::panic_text(p)),
+            Ok(mut client) => {
+                s.spawn("client", async move {
+                    let req = http::Request::get(uri).header("x-marker", "secret-marker-7f3a").body(hyperdriver::Body::empty()).unwrap();
+                    let r = client.request(req).await;
+                    seen_c.lock().unwrap().client = Some(match r {
+                        Ok(resp) => Ok(format!("stream; response {}", resp.status())),
+                        Err(e) => Err(e.to_string()),
+                    });
+                });
+            }
+        }
+        return finish_case(c, s, seen, raw_in, sent, stall, far, fx);
+    }
     let mut transport = TlsTransport::new(OneShot(Arc::new(Mutex::new(Some(near))))).with_tls(cfg);
     let parts = http::Request::get(c.uri()).body(()).unwrap().into_parts().0;
     let seen_c = seen.clone();
@@ -199,6 +224,11 @@ pub fn run_case(c: &Case, fx: &Fx) -> Seen {
             });
         }
     }
+    finish_case(c, s, seen, raw_in, sent, stall, far, fx)
+}
+
+#[allow(clippy::too_many_arguments)]
+fn finish_case(c: &Case, mut s: Sched, seen: Arc<Mutex<Seen>>, raw_in: Arc<Mutex<Vec<u8>>>, sent: Arc<Mutex<usize>>, stall: Gate, far: DuplexStream, fx: &Fx) -> Seen {
     // ---- peer
     let seen_p = seen.clone();
     match c.peer.clone() {
@@ -295,7 +325,8 @@ pub fn check(c: &Case, o: &Seen) -> Vec<(String, String)> {
         v.push(("panic".into(), format!("panic: {p}")));
     }
     let secure = matches!(c.scheme, "https" | "wss");
-    let contains_marker = o.raw.windows(MARKER.len().min(24)).any(|w| w == &MARKER[..MARKER.len().min(24)]);
+    let needle: &[u8] = b"secret-marker-7f3a";
+    let contains_marker = o.raw.windows(needle.len()).any(|w| w == needle);
     let got_stream = matches!(&o.client, Some(Ok(_)));
     if secure {
         if let Some(&b) = o.raw.first() {
@@ -328,7 +359,12 @@ pub fn check(c: &Case, o: &Seen) -> Vec<(String, String)> {
                 (None, _) => v.push(("stream-without-handshake".into(), "the caller got a stream but the peer never completed a handshake".into())),
                 (sni, _) => v.push(("wrong-server-name".into(), format!("server name offered {sni:?} is not the URI host {bare}"))),
             }
-            if o.peer_app != MARKER {
+            if c.via_client {
+                let text = String::from_utf8_lossy(&o.peer_app).to_string();
+                if !text.starts_with("GET /secret-marker-7f3a HTTP/1.1\r\n") || !text.to_ascii_lowercase().contains("x-marker: secret-marker-7f3a") {
+                    v.push(("app-data-altered".into(), format!("the peer decrypted {text:?}")));
+                }
+            } else if o.peer_app != MARKER {
                 v.push(("app-data-altered".into(), format!("the peer decrypted {:?}", String::from_utf8_lossy(&o.peer_app))));
             }
         }
@@ -345,7 +381,7 @@ pub fn check(c: &Case, o: &Seen) -> Vec<(String, String)> {
         if got_stream && !o.raw.is_empty() && !contains_marker {
             v.push(("plain-bytes-altered".into(), "plaintext request bytes did not arrive unchanged".into()));
         }
-        if !got_stream && !o.hung {
+        if !got_stream && !o.hung && !c.via_client {
             v.push(("plain-connect-failed".into(), format!("a {} request could not get a plain stream: {:?}", c.scheme, o.client)));
         }
     }
@@ -374,25 +410,37 @@ pub fn cases(thorough: bool, flight_len: usize, flight_len_ip: usize) -> Vec<Cas
                             if port.is_some() && !(ai == 3 && client_alpn) {
                                 continue;
                             }
-                            v.push(Case { scheme, host, port, peer: Peer::Tls { cert, alpn, truncate: None, stall: false }, client_alpn });
+                            v.push(Case { scheme, host, port, peer: Peer::Tls { cert, alpn, truncate: None, stall: false }, client_alpn, via_client: false });
                         }
                     }
                 }
                 for peer in [Peer::CloseAtOnce, Peer::PlaintextReply, Peer::Silent] {
-                    v.push(Case { scheme, host, port, peer, client_alpn: true });
+                    v.push(Case { scheme, host, port, peer, client_alpn: true, via_client: false });
                 }
             }
         }
+    }
+    // the same through the complete client (builder, pool, layers, HTTP/1.1 connection)
+    for (scheme, host, cert) in [("https", "example.com", "examplecom"), ("https", "EXAMPLE.com", "examplecom"), ("wss", "example.com", "examplecom"), ("https", "[::1]", "iphost"), ("https", "127.0.0.1", "iphost"),
+        ("https", "example.com", "othername"), ("https", "example.com", "rogue-examplecom"), ("https", "other.test", "examplecom"), ("http", "example.com", "examplecom"), ("https", "a_b.test", "examplecom"), ("https", "exa$mple.com", "examplecom")] {
+        if format!("{scheme}://{host}/").parse::<http::Uri>().is_err() {
+            continue;
+        }
+        for port in [None, Some(8443u16)] {
+            v.push(Case { scheme, host, port, peer: Peer::Tls { cert, alpn: ALPNS[0], truncate: None, stall: false }, client_alpn: false, via_client: true });
+        }
+        v.push(Case { scheme, host, port: None, peer: Peer::PlaintextReply, client_alpn: false, via_client: true });
+        v.push(Case { scheme, host, port: None, peer: Peer::CloseAtOnce, client_alpn: false, via_client: true });
     }
     // the real server flight truncated at every byte offset, then close / then stall
     let step = if thorough { 1 } else { 3 };
     for n in (0..flight_len).step_by(step) {
         for stall in [false, true] {
-            v.push(Case { scheme: "https", host: "example.com", port: None, peer: Peer::Tls { cert: "examplecom", alpn: ALPNS[3], truncate: Some(n), stall }, client_alpn: true });
+            v.push(Case { scheme: "https", host: "example.com", port: None, peer: Peer::Tls { cert: "examplecom", alpn: ALPNS[3], truncate: Some(n), stall }, client_alpn: true, via_client: false });
         }
     }
     for n in (0..flight_len_ip).step_by(if thorough { 7 } else { 41 }) {
-        v.push(Case { scheme: "wss", host: "[::1]", port: Some(8443), peer: Peer::Tls { cert: "iphost", alpn: ALPNS[0], truncate: Some(n), stall: false }, client_alpn: false });
+        v.push(Case { scheme: "wss", host: "[::1]", port: Some(8443), peer: Peer::Tls { cert: "iphost", alpn: ALPNS[0], truncate: Some(n), stall: false }, client_alpn: false, via_client: false });
     }
     v
 }
@@ -431,6 +479,7 @@ fn replay(path: &str, fx: &Fx) -> i32 {
         port: rp.get("port").and_then(|x| x.as_u64()).map(|p| p as u16),
         peer,
         client_alpn: rp.get("client_alpn").and_then(|x| x.as_bool()).unwrap_or(true),
+        via_client: rp.get("via_client").and_then(|x| x.as_bool()).unwrap_or(false),
     };
     std::panic::set_hook(Box::new(|_| {}));
     let o = run_case(&c, fx);
@@ -463,14 +512,14 @@ pub fn run(args: &Args) -> i32 {
     }
     std::panic::set_hook(Box::new(|_| {}));
     // measure the server's flight once (how many bytes the peer sends before the client's finished)
-    let probe = run_case(&Case { scheme: "https", host: "example.com", port: None, peer: Peer::Tls { cert: "examplecom", alpn: ALPNS[3], truncate: None, stall: false }, client_alpn: true }, &fx);
+    let probe = run_case(&Case { scheme: "https", host: "example.com", port: None, peer: Peer::Tls { cert: "examplecom", alpn: ALPNS[3], truncate: None, stall: false }, client_alpn: true, via_client: false }, &fx);
     // the server's handshake flight: what the peer had sent when the client's handshake completed
     // (if the reference handshake itself fails the grid below reports why; use a nominal length then)
     // ECDSA signatures are randomised and their DER length varies by a byte or two between
     // handshakes, so the last few offsets of the flight are left out (a cut there may fall after the
     // end of another handshake's flight, which is then legitimately complete).
     let flight_len = probe.peer_sent_at_connect.unwrap_or(1000).saturating_sub(8);
-    let probe_ip = run_case(&Case { scheme: "wss", host: "[::1]", port: Some(8443), peer: Peer::Tls { cert: "iphost", alpn: ALPNS[0], truncate: None, stall: false }, client_alpn: false }, &fx);
+    let probe_ip = run_case(&Case { scheme: "wss", host: "[::1]", port: Some(8443), peer: Peer::Tls { cert: "iphost", alpn: ALPNS[0], truncate: None, stall: false }, client_alpn: false, via_client: false }, &fx);
     let flight_len_ip = probe_ip.peer_sent_at_connect.map(|n| n.saturating_sub(8)).unwrap_or(flight_len);
     let cs = cases(args.tier.is_thorough(), flight_len, flight_len_ip);
     let threads = crate::evidence::n_threads();
@@ -502,7 +551,7 @@ pub fn run(args: &Args) -> i32 {
         for (sub, msg) in viols {
             let bare = c.host.trim_start_matches('[').trim_end_matches(']');
             let hk = if c.host.starts_with('[') { "ipv6-literal" } else if bare.parse::<std::net::Ipv4Addr>().is_ok() { "ipv4" } else { "name" };
-            run.violation(format!("{sub} scheme={} host-kind={hk} peer={peer_class}", c.scheme), format!("{msg}; uri {} peer {:?}", c.uri(), c.peer), json!({"engine":"schedmc-c12","uri":c.uri(),"scheme":c.scheme,"host":c.host,"port":c.port,"peer":format!("{:?}", c.peer),"peer_spec":peer_json(&c.peer),"client_alpn":c.client_alpn}));
+            run.violation(format!("{sub} scheme={} host-kind={hk} peer={peer_class}", c.scheme), format!("{msg}; uri {} peer {:?}", c.uri(), c.peer), json!({"engine":"schedmc-c12","uri":c.uri(),"scheme":c.scheme,"host":c.host,"port":c.port,"peer":format!("{:?}", c.peer),"peer_spec":peer_json(&c.peer),"client_alpn":c.client_alpn,"via_client":c.via_client}));
         }
     }
     run.cov("evaluations", cs.len() as u64);
